@@ -74,6 +74,42 @@ func TestC02(t *testing.T) {
 		c.Event("api_built", 1)
 	})
 	rec.Suite("marshal-fan-out", rec.N(300, 30000), func(c *ev.Case) { fanOutRound(c, gfan) })
+	// diam.MessageBufferLength is an exported variable: an application may change it while it is
+	// running. What WriteTo hands to the transport is the reference image before and after,
+	// whatever buffers earlier emissions left behind.
+	rec.Suite("buffer-length-changed-at-run-time", 12, func(c *ev.Case) {
+		oldLen := diam.MessageBufferLength
+		defer func() { diam.MessageBufferLength = oldLen }()
+		lens := [][2]int{{1024, 8192}, {1024, 4096}, {512, 2048}, {2048, 1 << 16}, {4096, 1024}, {64, 1024}}[c.I%6]
+		c.Class("buffer-length %d->%d", lens[0], lens[1])
+		for round := 0; round < 200; round++ {
+			diam.MessageBufferLength = lens[round%2]
+			lo, hi := lens[0], lens[1]
+			if lo > hi {
+				lo, hi = hi, lo
+			}
+			for k, payload := range []int{1, 90, lo + 1 + c.R.IntN(hi-lo), hi - 40, lo - 40} {
+				if payload < 0 {
+					payload = 3
+				}
+				if round%2 == 0 && k >= 2 {
+					payload = 5 + k // small messages while the variable has its first value
+				}
+				val := randASCII(c.R, payload)
+				m := diam.NewMessage(8388000, diam.RequestFlag, 0, uint32(round)+1, uint32(k)+1, gfan.Parser)
+				m.NewAVP(9001, 0x40, 0, datatype.OctetString(val))
+				want := refcodec.EncodeMessage(refcodec.Header{Version: 1, Flags: 0x80, Code: 8388000, HopByHop: uint32(round) + 1, EndToEnd: uint32(k) + 1},
+					[]*refcodec.Node{{Code: 9001, Flags: 0x40, Kind: refcodec.OctetString, B: val}})
+				var out bytes.Buffer
+				var err error
+				if p, bad := guard(func() { _, err = m.WriteTo(&out) }); bad || err != nil || !bytes.Equal(out.Bytes(), want) {
+					c.Fail(ev.Sig{"op": "emit", "how": "buffer-length-changed"}, want, nil, "diam.MessageBufferLength set to %d after messages had been written with %d: WriteTo of a %d-byte message: err=%v, %d bytes written, first difference from the reference image at %d %s", diam.MessageBufferLength, lens[(round+1)%2], len(want), err, out.Len(), firstDiff(out.Bytes(), want), p)
+					return
+				}
+				c.Event("api_built", 1)
+			}
+		}
+	})
 	if rec.Race() {
 		// marshal operations from several goroutines at once, on a struct type that is used for
 		// the first time (see C18, suite concurrent-first-use): the header length equals the
